@@ -66,8 +66,8 @@ func (w *world) parseCheck(h *recHandler, msg *service.Message) {
 		return
 	}
 	w.parseCalls++
-	liveErr := h.JT808Handler.Parse(msg.JTMessage)
-	liveStr := stringOf(h.JT808Handler, liveErr)
+	liveErr := h.rx.Parse(msg.JTMessage)
+	liveStr := stringOf(h.rx, liveErr)
 
 	hc := *msg.JTMessage.Header
 	exactBody := make([]byte, len(msg.JTMessage.Body))
@@ -99,13 +99,13 @@ func (w *world) parseCheck(h *recHandler, msg *service.Message) {
 			Step: simrt.Step()})
 		return
 	}
-	if !same(liveErr, flErr, h.JT808Handler, fl) {
+	if !same(liveErr, flErr, h.rx, fl) {
 		if os.Getenv("VERIF_DEBUG") != "" {
-			fmt.Fprintf(os.Stderr, "C03 DEBUG id=%#04x liveErr=%v flErr=%v\n live=%s\n fresh=%s\n", id, liveErr, flErr, canon(reflect.ValueOf(h.JT808Handler)), canon(reflect.ValueOf(fl)))
+			fmt.Fprintf(os.Stderr, "C03 DEBUG id=%#04x liveErr=%v flErr=%v\n live=%s\n fresh=%s\n", id, liveErr, flErr, canon(reflect.ValueOf(h.rx)), canon(reflect.ValueOf(fl)))
 		}
 		field := "error"
 		if liveErr == nil && flErr == nil {
-			field = firstDiff(reflect.ValueOf(h.JT808Handler), reflect.ValueOf(fl), 0)
+			field = firstDiff(reflect.ValueOf(h.rx), reflect.ValueOf(fl), 0)
 		}
 		w.parseViol = append(w.parseViol, Violation{Prop: "C03", Rule: "C03.receiver_history",
 			Sig:  fmt.Sprintf("C03.receiver_history:%#04x:%s", id, field),
